@@ -939,23 +939,17 @@ Definition reset (s : st) : st :=
   {| fb := 0; fe := 0; used := 0; allocd := 0; ptop := 0; parrs := []; otop := 0; oarrs := [];
      dtop := 0; darrs := []; up := up s; blocks := []; books := []; gpages := []; gups := []; gdtors := [] |}.
 
-Theorem mr_release_exact : forall s, reach P s ->
-  exists batches,
-    step P s Release =
-      (reset s, 0,
-       map (fun t => EDtor (fst t) (snd t)) (gdtors s) ++ map EPageFree batches ++
-       map (fun e => match e with (p, b, a) => EUpFree (up s) p b a end) (map up_entry (gups s))) /\
-    concat batches = gpages s.
+Lemma release_parts : forall s, reach P s ->
+  dtor_events s = map (fun t => EDtor (fst t) (snd t)) (gdtors s) /\
+  upfree_events s = map (fun e => match e with (p, b, a) => EUpFree (up s) p b a end) (map up_entry (gups s)) /\
+  concat (page_batches s) = gpages s /\
+  (match parrs s with [] => (fb s, fe s) | _ :: _ => (0, 0) end) = (0, 0).
 Proof.
   intros s R. pose proof (reach_str _ R) as [Hp Ho Hd _ _ _]. pose proof (reach_geo P Pok _ R) as [_ _ _ HK].
   pose proof side_caps as (C1 & C2 & C3).
-  exists (page_batches s). split.
-  - cbn. unfold do_release.
-    assert (Hz : (match parrs s with [] => (fb s, fe s) | _ :: _ => (0, 0) end) = (0, 0)).
-    { destruct (parrs s) eqn:E; [|reflexivity]. destruct (HK eq_refl) as (-> & -> & _). reflexivity. }
-    rewrite Hz. unfold reset. f_equal. f_equal; [f_equal|].
-    + unfold dtor_events. rewrite C3. rewrite (chain_read_all _ _ _ _ _ Hd). reflexivity.
-    + unfold upfree_events. rewrite C2. rewrite (chain_read_all _ _ _ _ _ Ho). reflexivity.
+  split; [|split; [|split]].
+  - unfold dtor_events. rewrite C3. rewrite (chain_read_all _ _ _ _ _ Hd). reflexivity.
+  - unfold upfree_events. rewrite C2. rewrite (chain_read_all _ _ _ _ _ Ho). reflexivity.
   - unfold page_batches. destruct Hp as (k & Hk & Hle & Hn & Hc & Hv).
     destruct (parrs s) as [|[a0 sl] rest] eqn:E.
     + cbn in Hv. cbn. auto.
@@ -965,6 +959,20 @@ Proof.
       cbn [concat]. rewrite (read_slots_ok wild _ _ _ Hc1).
       change 0 with (Z.of_nat 0). rewrite (chain_read_ok wild _ _ _ Hc2).
       rewrite <- Hv. unfold chain_vals. cbn. reflexivity.
+  - destruct (parrs s) eqn:E; [|reflexivity]. destruct (HK eq_refl) as (-> & -> & _). reflexivity.
+Qed.
+
+Theorem mr_release_exact : forall s, reach P s ->
+  exists batches,
+    step P s Release =
+      (reset s, 0,
+       map (fun t => EDtor (fst t) (snd t)) (gdtors s) ++ map EPageFree batches ++
+       map (fun e => match e with (p, b, a) => EUpFree (up s) p b a end) (map up_entry (gups s))) /\
+    concat batches = gpages s.
+Proof.
+  intros s R. destruct (release_parts s R) as (H1 & H2 & H3 & H4).
+  exists (page_batches s). split; [|exact H3].
+  cbn. unfold do_release. rewrite H4, H1, H2. reflexivity.
 Qed.
 
 (* every oversize block is returned to the upstream it was obtained from - all histories, move included
@@ -1317,5 +1325,60 @@ Proof.
   destruct Ox as [Zx|(r & Hr & Ix)]; [unfold disj; lia|].
   destruct Oy as [Zy|(r' & Hr' & Iy)]; [unfold disj; lia|].
   exact (inside_disj _ _ _ _ Ix Iy (I2 _ _ _ _ Hn Ht Hu _ _ Hr Hr')).
+Qed.
+(* ---- SharedMonotonicBufferResource::release: destruct_all of every resource, then release of every resource ---- *)
+Definition dtor_ev (t : Z * Z) : ev := EDtor (fst t) (snd t).
+Definition free_evs (s : st) : list ev :=
+  map EPageFree (page_batches s) ++
+  map (fun e => match e with (p, b, a) => EUpFree (up s) p b a end) (map up_entry (gups s)).
+Definition is_dtor (e : ev) : Prop := match e with EDtor _ _ => True | _ => False end.
+Definition is_free (e : ev) : Prop := match e with EPageFree _ | EUpFree _ _ _ _ => True | _ => False end.
+
+Lemma sh_elem : forall s, reach P s ->
+  snd (destruct_all s) = map dtor_ev (gdtors s) /\
+  do_release (fst (destruct_all s)) = (init, 0, free_evs s) /\
+  concat (page_batches s) = gpages s.
+Proof.
+  intros s R. destruct (release_parts P Pok s R) as (H1 & H2 & H3 & H4). destruct (reach_tag P s R) as [Hu _].
+  split; [exact H1|]. split; [|exact H3].
+  unfold destruct_all, do_release. cbn [fst].
+  change (parrs (set_dtor s 0 [] [])) with (parrs s). change (fb (set_dtor s 0 [] [])) with (fb s).
+  change (fe (set_dtor s 0 [] [])) with (fe s). rewrite H4.
+  change (page_batches (set_dtor s 0 [] [])) with (page_batches s).
+  change (upfree_events (set_dtor s 0 [] [])) with (upfree_events s).
+  change (up (set_dtor s 0 [] [])) with (up s).
+  change (dtor_events (set_dtor s 0 [] [])) with (@nil ev).
+  unfold free_evs. rewrite H2, Hu. reflexivity.
+Qed.
+
+Lemma sreach_all : forall S, sreach S -> forall s, In s S -> reach P s.
+Proof.
+  intros S R s Hin. destruct (sreach_inv S R) as [I1 _]. apply In_nth_error in Hin. destruct Hin as [t Ht]. eauto.
+Qed.
+
+Theorem mr_shared_release_exact : forall S, sreach S ->
+  sh_release S = (map (fun _ => init) S,
+                  concat (map (fun s => map dtor_ev (gdtors s)) S) ++ concat (map free_evs S)) /\
+  Forall (fun s => concat (page_batches s) = gpages s) S.
+Proof.
+  intros S R. pose proof (sreach_all S R) as A. split.
+  - unfold sh_release. change (shared_release_destructs_first =? 1) with true. cbv iota zeta.
+    rewrite !map_map.
+    f_equal; [|f_equal; f_equal]; apply map_ext_in; intros s Hs;
+      destruct (sh_elem s (A s Hs)) as (E1 & E2 & _); rewrite ?E1, ?E2; reflexivity.
+  - apply Forall_forall. intros s Hs. apply (sh_elem s (A s Hs)).
+Qed.
+
+(* every destructor of every per-thread resource runs before any page / oversize block of any of them is returned *)
+Theorem mr_shared_release_order : forall S, sreach S ->
+  exists ed ef, snd (sh_release S) = ed ++ ef /\ Forall is_dtor ed /\ Forall is_free ef.
+Proof.
+  intros S R. destruct (mr_shared_release_exact S R) as [H _]. rewrite H. cbn [snd].
+  eexists. eexists. split; [reflexivity|]. split; apply Forall_forall; intros e He;
+    apply in_concat in He; destruct He as (l & Hl & He); apply in_map_iff in Hl; destruct Hl as (s & <- & _).
+  - apply in_map_iff in He. destruct He as (t & <- & _). exact I.
+  - unfold free_evs in He. apply in_app_iff in He. destruct He as [He|He]; apply in_map_iff in He.
+    + destruct He as (x & <- & _). exact I.
+    + destruct He as ([[p b] a] & <- & _). exact I.
 Qed.
 End Shared.
